@@ -494,6 +494,16 @@ func (x *Exec) runBlock(s *State, b *ssa.BasicBlock, pred *ssa.BasicBlock, k con
 			if !ok {
 				break
 			}
+			// a phi whose value on every back edge is the phi itself is loop-invariant
+			invariantPhi := true
+			for pi, pb := range b.Preds {
+				if li.latches[pb] && phi.Edges[pi] != ssa.Value(phi) {
+					invariantPhi = false
+				}
+			}
+			if invariantPhi {
+				continue
+			}
 			old := fr.vals[phi]
 			if old.T == nil {
 				x.abort("loop-carried non-scalar value " + phi.Name())
